@@ -291,9 +291,9 @@ def build_probe(cfg, auto=False):
 def access_text(form, name):
     dunder = name.startswith('__')
     if form == 'attr':
-        return None if dunder else '$p.%s' % name
+        return '$p.%s' % name        # dunder names: the lexer must refuse them (counted as denied)
     if form == 'method':
-        return None if dunder else '$p.%s()' % name
+        return '$p.%s()' % name
     return "$p['%s']" % name if (dunder or name in ('zz', '_')) else '$p[%s]' % name
 
 
@@ -306,6 +306,13 @@ def policy_check(mon, cfg, form, name, rec):
     out = mon.run(text, {'p': p})
     rec.count('policy.cases')
     key = ('policy', tuple(sorted((k, str(v)) for k, v in cfg.items())), form, name)
+    if out[0] == 'parse-error':
+        LOG.reset()
+        rec.count('policy.refused_by_lexer')
+        rec.case(key, nontrivial=False)
+        if not name.startswith('__'):
+            rec.inconc('policy access %r does not parse' % text)
+        return
     rec.case(key, nontrivial=LOG.infra > 0)
     touched_attrs = [n for n, s in LOG.attrs]
     touched_items = [k for k, s in LOG.items]
